@@ -173,7 +173,16 @@ func ruleForwardOnce(c *Ctx, pl *pipeline, rule string, read *ssa.Call, nVal, er
 	for _, sd := range sends {
 		okv := false
 		if ld, ok := sd.X.(*ssa.UnOp); ok && ld.Op == token.MUL {
-			if ia, ok := ld.X.(*ssa.IndexAddr); ok && root(ia.X) == buf {
+			// the same storage: the slice itself, or the array variable the slice was cut from
+			// (`var buf [1]byte; r.Read(buf[:]); ch <- buf[0]`)
+			storage := func(v ssa.Value) ssa.Value {
+				v = root(v)
+				if sl, ok := v.(*ssa.Slice); ok {
+					return root(sl.X)
+				}
+				return v
+			}
+			if ia, ok := ld.X.(*ssa.IndexAddr); ok && (root(ia.X) == buf || storage(ia.X) == storage(buf)) {
 				if k, ok := constInt(ia.Index); ok && k == 0 {
 					okv = true
 				}
